@@ -11,7 +11,8 @@ LEAN_MODULES = ['MV.Props.C10']
 LEAN_HELPERS = ['MV.Lemmas.Duration', 'MV.Model.Duration', 'MV.Model.Basic', 'MV.Model.Types']
 DRIVERS = ['C10']
 GEN = ['Tables']
-SRC_TIE = ['SrcDur']   # py2lean source images of Melody/Chord/Score.duration proved equal to the model (MV/Props/TieDurC10.lean)
+SRC_TIE = ['SrcDur', 'SrcDurOps']   # py2lean source images proved equal to the model: Melody/Chord/Score.duration
+#   (MV/Props/TieDurC10.lean) and augment / set_duration / + / * / copy / decompose_duration (MV/Props/TieSrcDurOps.lean)
 RULE = ('one request = one operation (suffix / set_duration / augment / + / * / decompose_duration / duration / '
         'get_onset_times / limit_denominator) on a generated note, melody, chord or score; durations drawn from the 31 table '
         'figures, small fractions, and on purpose from outside the den<=1000 resolution; arguments as int, Fraction and '
@@ -527,7 +528,8 @@ def correspondence(ctx):
     score_cases(ctx)
     # kernel-level streams of the source tie (DESIGN §9.6)
     import srctie
-    srctie.run(ctx, SRC_TIE)
+    srctie.run(ctx, ['SrcDur'])
+    srctie.run(ctx, ['SrcDurOps'], quick=1500, thorough=20000)     # four families of operations, see srcgroups/SrcDurOps.py
 
 
 # ----------------------------------------------------------------------------- the property itself (oracles)
